@@ -9,7 +9,8 @@
      H empty_json = empty_json_digest   (the digest of "{}" is the constant of image-spec)
    Where a statement needs the digest to be collision-free this is an explicit
    premise of that clause. *)
-From Oras Require Import Base.Prelude Base.Regex Generated.GC19 Model.Pack Proofs.Pack Proofs.PackTime.
+From Coq Require Import Sorting.Permutation.
+From Oras Require Import Base.Prelude Base.Regex Base.StrCheck Generated.GC19 Model.Pack Proofs.Pack Proofs.PackTime.
 
 (* The media-type check accepts exactly RFC 6838 section 4.2:
    restricted-name "/" restricted-name, each 1..127 characters. *)
@@ -76,6 +77,19 @@ Theorem C19_created_grammar :
   forall s, rfc3339_ok s = true <-> RFC3339_go s.
 Proof. exact rfc3339_ok_spec. Qed.
 Print Assumptions C19_created_grammar.
+
+(* The model of validateRFC3339 is literally the code: time.Parse(time.RFC3339, v) (lenient
+   recogniser) followed by the explicit checks translated from pack.go on every run; those checks
+   are the three expected ones, and the combination equals the strict structural recogniser. *)
+Theorem C19_created_validation_as_in_source :
+  validateRFC3339_checks = expected_strict_checks /\ validateRFC3339_checks_layout = b "time.RFC3339".
+Proof. exact strict_checks_as_modelled. Qed.
+Print Assumptions C19_created_validation_as_in_source.
+
+Theorem C19_created_validation_is_strict :
+  forall s, rfc3339_ok s = rfc3339_gen true s.
+Proof. exact rfc3339_ok_is_strict. Qed.
+Print Assumptions C19_created_validation_is_strict.
 
 (* ... hence refuses everything that is not an RFC 3339 date-time ... *)
 Theorem C19_malformed_created_refused :
@@ -198,6 +212,24 @@ Theorem C19_deterministic :
 Proof. exact deterministic. Qed.
 Print Assumptions C19_deterministic.
 
+(* Go maps carry no order and json.Marshal writes map keys sorted (hypothesis marshal_perm): listing
+   the same manifest annotations in another order gives the same digest, size and media type, and
+   the same descriptor up to the order of its annotations. *)
+Theorem C19_annotation_order_independent :
+  forall (marshal : manifest -> str) (H : str -> str), H empty_json = empty_json_digest ->
+  (forall k c l sj a ann ann',
+      Permutation ann ann' -> marshal (mkManifest k c l sj a ann) = marshal (mkManifest k c l sj a ann')) ->
+  forall f at_ o o' v tc1 fa1 s1 now1 s1' d1 m1 tc2 fa2 s2 now2 s2' d2 m2,
+    NoDup (map fst (o_ann o)) -> Permutation (o_ann o) (o_ann o') -> same_but_ann o o' ->
+    ann_get (created_key f) (o_ann o) = Some v ->
+    pack marshal H f tc1 fa1 s1 at_ o now1 = (s1', Ok d1 m1) ->
+    pack marshal H f tc2 fa2 s2 at_ o' now2 = (s2', Ok d2 m2) ->
+    d_dg d1 = d_dg d2 /\ d_sz d1 = d_sz d2 /\ d_mt d1 = d_mt d2 /\ d_at d1 = d_at d2 /\
+    d_extra d1 = d_extra d2 /\ Permutation (d_ann d1) (d_ann d2) /\
+    m_config m1 = m_config m2 /\ m_layers m1 = m_layers m2 /\ m_subject m1 = m_subject m2 /\ m_at m1 = m_at m2.
+Proof. exact deterministic_perm. Qed.
+Print Assumptions C19_annotation_order_independent.
+
 (* ---------- the hypotheses are satisfiable, the statements are not vacuous ---------- *)
 
 (* a digest function with H "{}" = the image-spec constant, and collision-free *)
@@ -217,6 +249,13 @@ Proof.
   - discriminate.
   - now intros [= ->].
 Qed.
+
+(* a marshal that satisfies marshal_perm (it ignores the annotations' order: it drops them) *)
+Example toy_marshal_perm_satisfiable :
+  let mar := fun m : manifest => b "manifest:" ++ m_at m in
+  forall k c l sj a ann ann', Permutation ann ann' ->
+    mar (mkManifest k c l sj a ann) = mar (mkManifest k c l sj a ann').
+Proof. reflexivity. Qed.
 
 Definition ex_layer : desc := mkDesc (b "application/octet-stream") (b "sha256:aa") 5 [] [] [].
 
